@@ -16,11 +16,97 @@ def _const_str(node, what):
     raise Untranslatable(f"{what}: expected a string constant, got {ast.dump(node)[:60]}")
 
 
+# ------------------------------------------------------------------ normalisation before matching
+# Behaviour-preserving rewrites must not break the tie: every pinned method is first brought to a
+# canonical form -- (a) local aliases of attributes the method never assigns (`console = self.console`,
+# `_Segment = Segment`) are inlined; (b) `if not c: A else: B`, `if x is not None: A else: B`,
+# `if a != b: A else: B` become the positive test with the branches swapped; (c) in position_cursor /
+# restore_cursor the guard-clause form `if self._shape is None: return Control(NONE)` + rest is accepted.
+# NOT normalised (fail closed): wrapping the body of start()/stop() in `if started:` instead of the early
+# return (statements after the block would change meaning), try/finally rewritten as a context manager.
+class _SwapIfs(ast.NodeTransformer):
+    def visit_If(self, node):
+        self.generic_visit(node)
+        if node.orelse:
+            t = node.test
+            if isinstance(t, ast.UnaryOp) and isinstance(t.op, ast.Not):
+                node.test, node.body, node.orelse = t.operand, node.orelse, node.body
+            elif isinstance(t, ast.Compare) and len(t.ops) == 1 and isinstance(t.ops[0], (ast.IsNot, ast.NotEq)):
+                t.ops = [ast.Is() if isinstance(t.ops[0], ast.IsNot) else ast.Eq()]
+                node.body, node.orelse = node.orelse, node.body
+        return node
+
+
+def _self_attr_root(node):
+    """`self.a.b` -> 'a' ; anything else -> None"""
+    chain = []
+    while isinstance(node, ast.Attribute):
+        chain.append(node.attr)
+        node = node.value
+    if isinstance(node, ast.Name) and node.id == "self" and chain:
+        return chain[-1]
+    return None
+
+
+def _prep(fn):
+    """canonical copy of a FunctionDef (see above)"""
+    import copy
+    fn = copy.deepcopy(fn)
+    assigned_attrs, name_count = set(), {}
+    for n in ast.walk(fn):
+        targets = []
+        if isinstance(n, ast.Assign):
+            targets = n.targets
+        elif isinstance(n, (ast.AugAssign, ast.AnnAssign)):
+            targets = [n.target]
+        elif isinstance(n, (ast.For, ast.With)):
+            targets = [n.target] if isinstance(n, ast.For) else [i.optional_vars for i in n.items if i.optional_vars]
+        for t in targets:
+            for x in ast.walk(t):
+                if isinstance(x, ast.Attribute) and _self_attr_root(x):
+                    assigned_attrs.add(_self_attr_root(x))
+                if isinstance(x, ast.Name):
+                    name_count[x.id] = name_count.get(x.id, 0) + 1
+    params = {a.arg for a in fn.args.args + fn.args.kwonlyargs}
+    aliases = {}
+    for n in ast.walk(fn):
+        if isinstance(n, ast.Assign) and len(n.targets) == 1 and isinstance(n.targets[0], ast.Name):
+            nm, v = n.targets[0].id, n.value
+            if name_count.get(nm) != 1 or nm in params:
+                continue
+            root = _self_attr_root(v)
+            if (root and root not in assigned_attrs) or (isinstance(v, ast.Name) and v.id[:1].isupper()):
+                aliases[nm] = v
+
+    class Inline(ast.NodeTransformer):
+        def visit_Assign(self, node):
+            if len(node.targets) == 1 and isinstance(node.targets[0], ast.Name) and node.targets[0].id in aliases:
+                return None
+            return self.generic_visit(node)
+
+        def visit_Name(self, node):
+            if isinstance(node.ctx, ast.Load) and node.id in aliases:
+                return copy.deepcopy(aliases[node.id])
+            return node
+
+    fn = Inline().visit(fn)
+    fn = _SwapIfs().visit(fn)
+    ast.fix_missing_locations(fn)
+    return fn
+
+
 def _cursor_fn(cls, name):
     """`if self._shape is not None: _, height = self._shape; return Control(HEAD + UNIT * (height+off))`
     `return Control("")`  ->  (head, unit, off, none)"""
-    fn = find_func(cls.body, name)
+    fn = _prep(find_func(cls.body, name))
     body = [s for s in fn.body if not (isinstance(s, ast.Expr) and isinstance(s.value, ast.Constant))]
+    # guard-clause form: `if self._shape is None: return Control(NONE)` + rest  ==  `if ... is not None: rest` + return
+    if (len(body) >= 2 and isinstance(body[0], ast.If) and not body[0].orelse and len(body[0].body) == 1
+            and isinstance(body[0].body[0], ast.Return) and isinstance(body[0].test, ast.Compare)
+            and isinstance(body[0].test.ops[0], ast.Is) and isinstance(body[-1], ast.Return) and len(body) > 2):
+        t = body[0].test
+        t.ops = [ast.IsNot()]
+        body = [ast.If(test=t, body=body[1:], orelse=[]), body[0].body[0]]
     if len(body) != 2 or not isinstance(body[0], ast.If) or not isinstance(body[1], ast.Return):
         raise Untranslatable(f"{name}: unexpected statement shape")
     test = body[0].test
@@ -196,7 +282,7 @@ def _restores_overflow(events):
 def _final_room(lr_cls):
     """_LiveRender.__rich_console__: which height is a frame cropped to?  False: console.size.height;
     True: one row less for the last frame of a transient display (not started any more)."""
-    fn = find_func(lr_cls.body, "__rich_console__")
+    fn = _prep(find_func(lr_cls.body, "__rich_console__"))
     withs = [s for s in fn.body if isinstance(s, ast.With)]
     if len(withs) != 1 or _src(withs[0].items[0].context_expr) != "self._live._lock":
         raise Untranslatable("_LiveRender.__rich_console__: no `with self._live._lock`")
@@ -232,28 +318,27 @@ def _final_room(lr_cls):
     raise Untranslatable(f"_LiveRender.__rich_console__: bound `{bound}`")
 
 
-_LR_BODY_ASIS = [
+_LR_BODY_ASIS = [     # canonical form (see _prep): `_Segment` inlined, positive `is None` test first
     "style = console.get_style(self.style)",
     "lines = console.render_lines(self.renderable, options, style=style, pad=False)",
-    "_Segment = Segment",
-    "shape = _Segment.get_shape(lines)",
+    "shape = Segment.get_shape(lines)",
     "if self._shape is None:\n    self._shape = shape\nelse:\n    width1, height1 = shape\n    width2, height2 = self._shape\n"
     "    self._shape = (max(width1, min(options.max_width, width2)), max(height1, height2))",
     "width, height = self._shape",
-    "lines = _Segment.set_shape(lines, width, height)",
-    "for last, line in loop_last(lines):\n    yield from _Segment.make_control(line)\n    if not last:\n"
-    "        yield _Segment.line(is_control=True)",
+    "lines = Segment.set_shape(lines, width, height)",
+    "for last, line in loop_last(lines):\n    yield from Segment.make_control(line)\n    if not last:\n"
+    "        yield Segment.line(is_control=True)",
 ]
 
 
 def _lr_crops(cls):
     """LiveRender.__rich_console__ is pinned statement by statement (the model of the growing shape was
     written for exactly this body); the only known variant crops the lines to the page height first"""
-    fn = find_func(cls.body, "__rich_console__")
+    fn = _prep(find_func(cls.body, "__rich_console__"))
     body = [_src(st) for st in fn.body if not (isinstance(st, ast.Expr) and isinstance(st.value, ast.Constant))]
     if body == _LR_BODY_ASIS:
         return False
-    fixed = _LR_BODY_ASIS[:3] + ["lines = lines[:console.size.height]"] + _LR_BODY_ASIS[3:]
+    fixed = _LR_BODY_ASIS[:2] + ["lines = lines[:console.size.height]"] + _LR_BODY_ASIS[2:]
     if body == fixed:
         return True
     for i, (a, b) in enumerate(zip(body, fixed)):
@@ -268,7 +353,7 @@ def _status_facts(repo, live_cls):
     st = find_class(tree, "Status")
 
     def body(name):
-        fn = find_func(st.body, name)
+        fn = _prep(find_func(st.body, name))
         return [_src(x) for x in fn.body if not (isinstance(x, ast.Expr) and isinstance(x.value, ast.Constant))]
 
     init = find_func(st.body, "__init__")
@@ -317,7 +402,7 @@ def _hooks_applied(repo):
 
 def _show_cursor(repo):
     tree, _ = parse(repo, "rich/console.py")
-    fn = find_func(find_class(tree, "Console").body, "show_cursor")
+    fn = _prep(find_func(find_class(tree, "Console").body, "show_cursor"))
     body = [s for s in fn.body if not (isinstance(s, ast.Expr) and isinstance(s.value, ast.Constant))]
     if len(body) != 1 or not isinstance(body[0], ast.If) or _src(body[0].test) != "self.is_terminal and (not self.legacy_windows)":
         raise Untranslatable("show_cursor: guard is not `is_terminal and not legacy_windows`")
@@ -348,10 +433,10 @@ def gen_live_codes(repo):
     ptree, _ = parse(repo, "rich/progress.py")
     prog = find_class(ptree, "Progress")
     ev = {
-        "live_start": _events(find_func(live.body, "start").body, "Live.start"),
-        "live_stop": _events(find_func(live.body, "stop").body, "Live.stop"),
-        "progress_start": _events(find_func(prog.body, "start").body, "Progress.start"),
-        "progress_stop": _events(find_func(prog.body, "stop").body, "Progress.stop"),
+        "live_start": _events(_prep(find_func(live.body, "start")).body, "Live.start"),
+        "live_stop": _events(_prep(find_func(live.body, "stop")).body, "Live.stop"),
+        "progress_start": _events(_prep(find_func(prog.body, "start")).body, "Progress.start"),
+        "progress_stop": _events(_prep(find_func(prog.body, "stop")).body, "Progress.stop"),
     }
     out = [HEADER]
     out.append("(* LiveRender.position_cursor / restore_cursor: Control(HEAD ++ UNIT * (height + OFF)) when a\n"
